@@ -55,6 +55,10 @@ class Ctx:
         self.shard = shard
         self.nshards = nshards
         self.rng = random.Random((seed * 1000003 + shard * 7919 + 12345) & 0xFFFFFFFF)
+        # the same stream in every shard: for random decisions that SHAPE an enumeration which is then split with mine(k)
+        # (a skip or a sample decided with the shard's own stream would give every shard another enumeration, and the split
+        # would no longer cover it)
+        self.erng = random.Random((seed * 1000003 + 424243) & 0xFFFFFFFF)
         self.t0 = time.time()
         self.evaluations = 0
         self.nontrivial_hashes: set = set()
